@@ -19,7 +19,11 @@ over the same classes) and checkpoints of the version before whitening (state di
 exact on the rational instances (TLC's direct reading, jitter_val 0.0 / 1.0 / 2.0), on seeded models against the closed form of the loaded q(u) and against an
 UnwhitenedVariationalStrategy holding the same (m, S), and as an action LoadLegacy of the evaluation-mode protocol machine on every path cell that contains a
 VariationalStrategy (conversion at an evaluation-mode or training-mode call, through the whole forward or the early return, before / after optimizer steps and
-ordinary loads)."""
+ordinary loads);
+(h) the STRUCTURE / CONDITIONING of q(u) (TLC's part "qu": near the prior, diagonal, dense, dense with spectrum 1..1e4) x the number of inducing points below / above
+the iteration cap of the Lanczos estimate (16 / 24 against max_lanczos_quadrature_iterations = 20) for every strategy x distribution class, all solver tolerances tight:
+the spec lists the iterative solves of a cell and the setting that caps each (no cap may cut a solve short of the tolerance; the natural-gradient CIQ solve capped by the
+Lanczos setting is the rejected variant), the replay compares mean / covariance / KL with the dense closed form."""
 import itertools
 import math
 import os
@@ -51,10 +55,11 @@ CIQ_RT, CIQ_AT = 2e-6, 1e-8          # contour integral quadrature is iterative;
 # load_state_dict() and train() / eval() drop what is memoised
 # legacy checkpoints: the action is switched on per run; the conversion reads the strategy's own jitter_val; jarg: the constructor argument of the
 # machine's strategy (an explicit value different from the dtype default: the only class on which the source of the jitter matters)
-INTENDED = dict(lmckl="named", imtkl="named", imtmask="to", reuse=False, reusex=False, loadclear=True, modeclear=True,
+INTENDED = dict(preccap="cg", lmckl="named", imtkl="named", imtmask="to", reuse=False, reusex=False, loadclear=True, modeclear=True,
                 legacy=False, convjit="self", jarg="large")
 JARGS = ("none", "dflt", "zero", "small", "large")          # VariationalQF.tla JitArgs (compared with TLC's part "jit" on every run)
 SIG_LEGACY = "C14/%s/legacy-checkpoint/%s"
+QU_CAPS = dict(cg=1000, lanczos=20)                             # VariationalQF.tla QuCaps (compared with TLC's part "qu" on every run)
 
 
 def legacy_load(model, donor=None):
@@ -277,13 +282,27 @@ def ciq_settings(stack):
         stack.enter_context(cm)
 
 
-def call_model(torch, model, X, mode, strat, want_kl=True, set_mode=True, **kw):
+def tight_settings(stack):
+    """part "qu" of VariationalQF.tla: every TOLERANCE tight, the iteration cap of the solves (max_cg_iterations) far above the number of
+    inducing points, the cap of the Lanczos eigenvalue estimate (max_lanczos_quadrature_iterations) left at its default 20 - the number of
+    inducing points lies below / above it (QuCaps; compared with the library's defaults in run())"""
+    import gpytorch
+    import linear_operator
+    S = linear_operator.settings
+    for cm in (S.num_contour_quadrature(30), S.minres_tolerance(1e-12), S.cg_tolerance(1e-13), gpytorch.settings.eval_cg_tolerance(1e-13),
+               S.max_cg_iterations(QU_CAPS["cg"])):
+        stack.enter_context(cm)
+
+
+def call_model(torch, model, X, mode, strat, want_kl=True, set_mode=True, qu=False, **kw):
     """one call of the real model: mean, full covariance (eval) / variance, kl_divergence()"""
     from contextlib import ExitStack
     if set_mode:                                  # Module.train() clears every cache: histories must not go through it
         model.train(mode == "train")
     with ExitStack() as st, torch.no_grad():
-        if strat == "CiqVariationalStrategy":
+        if qu:
+            tight_settings(st)
+        elif strat == "CiqVariationalStrategy":
             ciq_settings(st)
         o = model(X, **kw)
         mean = o.mean.clone()
@@ -644,14 +663,22 @@ def seeded_setup(torch, cfg):
             # mean / variance dimension in front of the parameters' batch dimension(s): [2, *bp, M, d]
             Z = gen_points(torch, g, (2,) + (bp if bz else (1,) * len(bp)), M, d).expand(2, *bp, M, d).clone()
         else:
-            Z = gen_points(torch, g, bz + ((2,) if strat == "BatchDecoupledVariationalStrategy" else ()), M, d)
+            Z = gen_points(torch, g, bz + ((2,) if strat == "BatchDecoupledVariationalStrategy" else ()), M, d, mind=cfg.get("mind", 0.4))
         X = gen_points(torch, g, bx, N, d)
         if strat == "OrthogonallyDecoupledVariationalStrategy":
-            Zc = gen_points(torch, g, (), M, d)
+            Zc = gen_points(torch, g, (), M, d, mind=cfg.get("mind", 0.4))
     model = CM.build(cfg, Z, prior_hyper=cfg.get("ls"), Zc=Zc)
     mod = CM.param_module(cfg, model)
-    CM.write_raw(dist, mod, CM.seeded_raw(dist, mod.num_inducing_points, tuple(mod.batch_shape), g))
     vs = model.variational_strategy
+    if cfg.get("qu"):
+        # part "qu": q(u) of a structure class, in the coordinates of the strategy (u itself: the prior there is p(u) on the inducing points)
+        prior = None
+        if CM.FACTS[strat]["white"] in ("none", "interp") and strat != "OrthogonallyDecoupledVariationalStrategy":
+            mz, Kz = CM.prior_on(model, vs.inducing_points.detach())
+            prior = (mz, Kz + (CM.GRID_PRIOR_JITTER if strat == "GridInterpolationVariationalStrategy" else CM.jit(cfg)) * CM.eye(Kz.shape[-1]))
+        CM.write_raw(dist, mod, CM.qu_raw(dist, cfg["qu"], mod.num_inducing_points, tuple(mod.batch_shape), g, prior))
+    else:
+        CM.write_raw(dist, mod, CM.seeded_raw(dist, mod.num_inducing_points, tuple(mod.batch_shape), g))
     with torch.no_grad():
         if strat == "OrthogonallyDecoupledVariationalStrategy":
             vs._variational_distribution.variational_mean.copy_(torch.randn(*bp, M, generator=g, dtype=D) * 0.5)
@@ -673,7 +700,7 @@ def seeded_setup(torch, cfg):
 
 
 def cell_desc(cfg):
-    extra = "".join(" %s=%s" % (q, cfg[q]) for q in ("path", "variant", "mvd", "kb", "base", "Q", "T", "ld", "given", "task_indices", "x_is_z", "x_at_nodes", "jitter") if cfg.get(q) is not None)
+    extra = "".join(" %s=%s" % (q, cfg[q]) for q in ("qu", "M", "path", "variant", "mvd", "kb", "base", "Q", "T", "ld", "given", "task_indices", "x_is_z", "x_at_nodes", "jitter") if cfg.get(q) is not None)
     return "%s x %s inducing%s params%s inputs%s kernel=%s%s seed=%d" % (cfg["strat"], cfg["dist"], list(cfg["bz"]), list(cfg["bp"]), list(cfg["bx"]),
                                                                          cfg["kernel"], extra, cfg["seed"])
 
@@ -739,6 +766,50 @@ def wrapper_signatures(torch, cfg, got_ref):
     return sig_for
 
 
+SIG_CG_FLOOR = "C14/CiqVariationalStrategy/Natural/precision-solve/cg-eps-floor"
+
+
+def cg_floor_signatures(torch, cfg, model, X, cur, inner, kw):
+    """part "qu", CiqVariationalStrategy on its natural-gradient path: a mean / variance that misses the closed form at the tolerance settings gets the
+    diagnosed signature SIG_CG_FLOOR iff the SAME call (same settings, same iteration caps as the code passes them) meets the closed form once
+    linear_cg's division guard `eps` (default 1e-10, not reachable through any setting) is lowered - the reproduced accuracy floor of the precision
+    solve.  Any other failure (a solve that is cut short, a wrong operand) keeps the cell's own signature.  Diagnosis only: the cell fails either way."""
+    if not (cfg.get("qu") and cfg["strat"] == "CiqVariationalStrategy" and cfg["dist"] == "Natural"):
+        return inner
+    memo = {}
+
+    def lowered(mode):
+        if mode not in memo:
+            import gpytorch.variational.ciq_variational_strategy as ciqmod
+            orig = ciqmod.linear_cg
+            ciqmod.linear_cg = lambda *a, **k: orig(*a, **dict(k, eps=1e-30))
+            try:
+                ok, got = core.guarded(lambda: call_model(torch, model, X, mode, cfg["strat"], want_kl=False, qu=True, **kw))
+            finally:
+                ciqmod.linear_cg = orig
+            memo[mode] = got if ok else None
+        return memo[mode]
+
+    def sig_for(what):
+        s0 = inner(what)
+        if s0 is not None or what not in ("mean", "cov", "var"):
+            return s0
+        mode, ref = cur["mode"], cur["ref"]
+        rt, at = tolerance(cfg["strat"], cfg)
+        w = ref["mean"] if what == "mean" else ref["cov"].diagonal(dim1=-1, dim2=-2)
+        g0 = cur["got"]["mean"] if what == "mean" else cur["got"]["var"]
+        if tuple(g0.shape) != tuple(w.shape) or core.close(g0, w, rt, at)[0]:
+            return None                                                 # nothing to diagnose
+        got = lowered(mode)
+        if got is None:
+            return None
+        g = got["mean"] if what == "mean" else got["var"]
+        if tuple(g.shape) == tuple(w.shape) and core.close(g, w, rt, at)[0]:
+            return SIG_CG_FLOOR
+        return None
+    return sig_for
+
+
 def run_seeded(cfg):
     torch = core.setup_torch()
     from checks import c14_models as CM
@@ -746,7 +817,8 @@ def run_seeded(cfg):
     cell = Cell("C14/%s/%s" % (strat, dist), cell_desc(cfg), dict(kind="seed", cfg=cfg),
                 ["seed", strat, dist, list(cfg["bz"]), list(cfg["bp"]), list(cfg["bx"]), cfg["kernel"], cfg.get("variant"), cfg.get("base"),
                  cfg.get("task_indices") is not None, cfg.get("x_is_z"), cfg.get("x_at_nodes") is not None, cfg.get("jitter"), cfg.get("ld"), cfg.get("given"),
-                 cfg.get("Q"), cfg.get("T"), cfg.get("kb") if cfg.get("variant") == "batchkernel" else None, cfg.get("mvd")])
+                 cfg.get("Q"), cfg.get("T"), cfg.get("kb") if cfg.get("variant") == "batchkernel" else None, cfg.get("mvd")]
+                + ([cfg["qu"], cfg["msize"]] if cfg.get("qu") else []))
     ok, r = core.guarded(lambda: setup_retry(torch, cfg))
     if not ok:
         if "Machinery" in str(r):
@@ -762,8 +834,10 @@ def run_seeded(cfg):
     k_ind = CM.param_module(cfg2, model).num_inducing_points
     cur = {}
     sig_for = wrapper_signatures(torch, cfg2, lambda: (cur["got"], cur["ref"]))
+    sig_for = cg_floor_signatures(torch, cfg2, model, X, cur, sig_for, kw)
     for mode in ("eval", "train"):
-        ok, got = core.guarded(lambda: call_model(torch, model, X, mode, strat, **kw))
+        cur["mode"] = mode
+        ok, got = core.guarded(lambda: call_model(torch, model, X, mode, strat, qu=bool(cfg.get("qu")), **kw))
         if not ok:
             msg = str(got)
             sig = None
@@ -1410,6 +1484,31 @@ def lattice_cfgs(cells, seed, thorough):
     return cfgs
 
 
+def qu_cfgs(qcells, hcells, seed):
+    """seeded configurations for the cells of TLC's part "qu": the unbatched lattice cell of strategy x distribution with M = 16 / 24 inducing
+    points (Matern kernels with short lengthscales keep cond(Kzz) <= 1e4 at that size) and q(u) of the cell's structure class"""
+    from checks import c14_models as CM
+    cfgs = []
+    for n, qc in enumerate(qcells):
+        strat = qc["strat"]
+        cands = [c for c in hcells if c["strat"] == strat and c["dist"] == qc["dist"] and c["mv"] == 0]
+        if not cands:
+            raise core.Machinery("qu: no lattice cell for %r" % (qc,))
+        cfg = [x for x in lattice_cfgs([cands[0]], seed + 41 + n, False) if x.get("task_indices") is None][0]
+        M = CM.QU_M[qc["msize"]]
+        if M != qc["M"]:
+            raise core.Machinery("qu: the replay's number of inducing points for %r differs from MOf of VariationalQF.tla" % (qc,))
+        cfg.update(qu=qc["qclass"], msize=qc["msize"], M=M, N=5, mind=0.12, kernel=("matern15", "matern25")[n % 2], ls=0.3, solves=qc["solves"])
+        if strat == "GridInterpolationVariationalStrategy":
+            cfg.update(grid_size=M, ls=0.1, kernel="matern15")
+        else:
+            cfg["jitter"] = (None, 0.03)[(n // 2) % 2]
+        if strat in WRAPPERS:
+            cfg["base"] = "VariationalStrategy"
+        cfgs.append(cfg)
+    return cfgs
+
+
 def run(ck):
     thorough = ck.tier == "thorough"
     core.setup_torch()
@@ -1433,6 +1532,9 @@ def run(ck):
                "against TLC's exact direct reading (two calls), seeded {Cholesky, Natural, TrilNatural} x batch patterns x argument classes x mode of the converting call against the closed "
                "form of the loaded q(u) and against UnwhitenedVariationalStrategy on the same parameters, and histories of the protocol machine with LoadLegacy (8 required shapes + "
                "rotation) on every path cell whose strategy or base strategy is VariationalStrategy; "
+               "(h) structure / conditioning of q(u) x size: every cell of TLC's part qu - strategy x distribution x {near the prior, diagonal precision 1..1e2, dense precision "
+               "1..1e2, dense precision 1..1e4} x M in {16, 24} (below / above max_lanczos_quadrature_iterations = 20; max_cg_iterations = 1000) on seeded Matern models with every "
+               "solver tolerance tight, eval and train mode, mean / covariance / KL against the dense closed form (quick: CIQ and the ill-conditioned class completely, the rest rotating); "
                "non-trivial = q(u) differs from the prior or the history contains an optimizer step before an observation (all cases except the q = p instances)")
     ck.assumptions = [
         "jitter is part of the prior the model evaluates to (VariationalQF.tla StratInfo); Kzz + jitter_val I defines p(u) and the whitening and is compared exactly; the "
@@ -1464,7 +1566,11 @@ def run(ck):
         "module keeps only the diagonal of the whitened covariance and a point mass is not converted at all - both outside the statement); the parameter module has the batch shape of "
         "the inducing points (the whitened parameters depend on Z); after the converting call and until the next optimizer step / load, the expected q(u) is what the checkpoint's "
         "parameters encoded in the coordinates of u when the call was made (an optimizer step between the load and the first call moves them in those coordinates)",
-        "float64, 2-3 inducing points (rational) / 3 (seeded), cond(Kzz + jitter) <= 1e4 checked on the oracle side, 1e-7 relative + 1e-9 absolute; CIQ with tightened solver "
+        "q(u) classes (part qu): the classes are stated in the coordinates of the strategy's parameters (whitened strategies: near the prior = mean ~ 0, S ~ I; unwhitened / grid: "
+        "q(u) ~ p(u) on the inducing points, which a mean-field module cannot express); cond(S) <= 1e4, cond(Kzz + jitter) <= 1e4; solver settings of these cells: "
+        "num_contour_quadrature 30, minres_tolerance 1e-12, cg_tolerance = eval_cg_tolerance = 1e-13, max_cg_iterations 1000, max_lanczos_quadrature_iterations at its default; CIQ is "
+        "held to the same 2e-6 + 1e-8 as on the small cells (the tolerance settings promise far less than that); wrappers on the whitened base strategy",
+        "float64, 2-3 inducing points (rational) / 3 (seeded; 16 and 24 in part qu), cond(Kzz + jitter) <= 1e4 checked on the oracle side, 1e-7 relative + 1e-9 absolute; CIQ with tightened solver "
         "settings at 2e-6 + 1e-8; optimizer step = torch.optim.SGD.step() on seeded pseudo-gradients for every parameter"]
     wd = os.path.join(tlc.BUILD, PID)
     pairs = gen_pairs(rnd, 150 if thorough else 21, 40 if thorough else 5)
@@ -1494,13 +1600,15 @@ def run(ck):
                ("ehist_nomodeclear", "ehist", [], EINV, dict(maxhist=EL, variant=dict(modeclear=False))),
                ("ehist_notrainclear", "ehist", [], EINV, dict(maxhist=EL, clear=False)),
                ("elegacy_convjit", "ehist", [], EINV, dict(maxhist=EL, variant=dict(legacy=True, convjit="setting"))),
-               ("jit_convjit", "jit", [], ["JitSame"], dict(variant=dict(convjit="setting"))))
-    dumped = ("mix", "lattice", "hist", "paths", "ehist", "jit", "elegacy")
+               ("jit_convjit", "jit", [], ["JitSame"], dict(variant=dict(convjit="setting"))),
+               ("qu_preccap", "qu", [], ["QuConverges", "QuCover"], dict(variant=dict(preccap="lanczos"))))
+    dumped = ("mix", "lattice", "hist", "paths", "ehist", "jit", "elegacy", "qu")
     for name, part, insts, inv, kw in (("mix", "mix", mixes, MIXINV, {}), ("lattice", "lattice", [], [], {}),
                                        ("hist", "hist", [], ["ObservesCurrent"], dict(maxhist=L)),
                                        ("paths", "paths", [], [], {}), ("ehist", "ehist", [], EINV, dict(maxhist=EL)),
                                        ("jit", "jit", [], ["JitSame"], {}),
-                                       ("elegacy", "ehist", [], EINV, dict(maxhist=EL, variant=dict(legacy=True)))) + broken:
+                                       ("elegacy", "ehist", [], EINV, dict(maxhist=EL, variant=dict(legacy=True))),
+                                       ("qu", "qu", [], ["QuConverges", "QuCover"], {})) + broken:
         mod, cfg = write_mc(wd, name, part, insts, inv, **kw)
         jobs.append(((mod, cfg), dict(name=PID + "/" + name, dump=(name in dumped), check=False, workers=2, coverage=False)))
     rs = tlc.run_many(jobs, parallel=min(12, core.NPROC))
@@ -1514,12 +1622,14 @@ def run(ck):
                "evaluation-mode protocol, train() / eval() keep what is memoised (must be rejected)",
                "evaluation-mode protocol without the training-mode clear (must be rejected)",
                "evaluation-mode protocol with legacy checkpoints, the conversion whitens with the dtype default of the setting instead of the strategy's jitter_val (must be rejected)",
-               "jitter sites, the conversion reads the setting instead of the strategy's jitter_val (must be rejected)"]
+               "jitter sites, the conversion reads the setting instead of the strategy's jitter_val (must be rejected)",
+               "q(u) classes, the natural-gradient CIQ solve with the precision capped by max_lanczos_quadrature_iterations (must be rejected)"]
     labels = ["qf chunk %d (exact rationals: code-shaped = denotation)" % q for q in range(nchunk)] + [
         "mix (multitask wrappers, every position of the latent / task dimension)", "lattice", "call protocol",
         "code paths (strategy x distribution x base x setting)", "evaluation-mode call protocol",
         "jitter_val as a constructor argument (strategy x argument class, one value at every site)",
-        "evaluation-mode call protocol with legacy (pre-whitening) checkpoints"] + blabels
+        "evaluation-mode call protocol with legacy (pre-whitening) checkpoints",
+        "q(u) structure classes x number of inducing points below / above the Lanczos cap (strategy x distribution; no cap cuts a solve short)"] + blabels
     for lab, r in zip(labels, rs):
         ck.add_tlc(r, lab)
     for lab, r in list(zip(labels, rs))[:-len(blabels)]:
@@ -1527,7 +1637,7 @@ def run(ck):
             ck.model_drift("VariationalQF.tla %s violates %s: %s" % (lab, r.violation["name"], str(r.violation["trace"][:1])[:300]))
         elif r.rc != 0:
             raise tlc.TLCError("TLC failed on VariationalQF %s:\n%s" % (lab, r.stdout[-1500:]))
-    for lab, r, want in zip(blabels, rs[-len(blabels):], ("ObservesCurrent", "MixKLOK", "MixKLOK", "MixOK") + ("EObservesCurrent",) * 6 + ("JitSame",)):
+    for lab, r, want in zip(blabels, rs[-len(blabels):], ("ObservesCurrent", "MixKLOK", "MixKLOK", "MixOK") + ("EObservesCurrent",) * 6 + ("JitSame", "QuConverges")):
         if not r.violation or r.violation["name"] != want:
             ck.vacuous("%s: TLC did not report a violation of %s" % (lab, want))
     # TLC's exact evaluation, validated against the mirror (a mismatch is a machinery failure)
@@ -1795,6 +1905,32 @@ def run(ck):
                 cfg["base"] = pc["base"]
             cases.append(dict(kind="ehist", cfg=cfg, hist=[list(x) for x in h], pinfo=pc["info"]))
             n_leh += 1
+    # (h) structure / conditioning of q(u) x number of inducing points relative to the solver caps, every strategy x distribution (TLC's part "qu")
+    import linear_operator
+    if (linear_operator.settings.max_lanczos_quadrature_iterations.value() != QU_CAPS["lanczos"] or linear_operator.settings.max_cg_iterations.value() > QU_CAPS["cg"]):
+        raise core.Machinery("qu: the library's default iteration caps differ from QuCaps of VariationalQF.tla")
+    qstates = rs[nchunk + 7].states() if not rs[nchunk + 7].violation else []
+    qcells = sorted((dict(jsonable(st["c"]), M=int(st["out"]["M"]), tol=st["out"]["tol"], solves=sorted((dict(v) for v in st["out"]["solves"]), key=lambda v: v["site"]))
+                     for st in qstates), key=lambda c: (c["strat"], c["dist"], CM.QU_CLASSES.index(c["qclass"]), c["msize"]))
+    if {c["qclass"] for c in qcells} != set(CM.QU_CLASSES) or {c["msize"] for c in qcells} != set(CM.QU_M):
+        raise core.Machinery("qu: QClasses / MSizes of VariationalQF.tla differ from the classes the replay knows")
+    for sv in (v for c in qcells for v in c["solves"]):
+        if QU_CAPS.get(sv["cap"]) is None or sv["need"] > QU_CAPS[sv["cap"]]:
+            raise core.Machinery("qu: solve %r is not covered by the caps of the replay's settings %r" % (sv, QU_CAPS))
+    for sname in STRATS_ALL:
+        for ms in CM.QU_M:
+            for qc in ("nearprior", "ill"):
+                if not any(c["strat"] == sname and c["msize"] == ms and c["qclass"] == qc and c["dist"] != "MeanField" for c in qcells):
+                    ck.vacuous("qu: no cell of %s with q(u) class %s and M %s the Lanczos cap" % (sname, qc, ms))
+    if not any(c["strat"] == "CiqVariationalStrategy" and any(v["site"] == "precision" and v["need"] > QU_CAPS["lanczos"] for v in c["solves"]) for c in qcells):
+        ck.vacuous("qu: no cell whose precision solve needs more iterations than the Lanczos cap")
+    # quick: the iterative strategy completely, the direct ones on the dense classes at both sizes and the other classes rotating over the sizes
+    n_qu = 0
+    for n, cfg in enumerate(qu_cfgs(qcells, hcells, ck.seed)):
+        if thorough or cfg["strat"] == "CiqVariationalStrategy" or cfg["qu"] == "ill" or (n // 2 + n) % 2 == 0:
+            cases.append(dict(kind="seed", cfg=cfg))
+            n_qu += 1
+    ck.section("replay", qu_cells=len(qcells), qu_configurations=n_qu)
     ck.section("replay", jitter_argument_configurations=n_jit, legacy_checkpoint_configurations=n_leg, legacy_histories=len(lhists), legacy_history_cases=n_leh)
     ck.section("replay", rational_cases=n_rat, mixture_cases=n_mix, lattice_cells=len(cells), seeded_configurations=len(lat) + extra,
                same_qu_configurations=n_same, histories=len(hists), history_cases=n_hist, path_cells=len(pcells), eval_histories=len(ehists),
